@@ -61,6 +61,62 @@ def go_env(toolchain="go"):
     return env
 
 
+MEM_GUARD_GIB = int(os.environ.get("VERIF_MEM_GUARD_GIB", "20"))
+
+
+class _Done:
+    def __init__(self, rc, out):
+        self.returncode, self.stdout = rc, out
+
+
+def _group_rss_kib(pgid):
+    total = 0
+    for d in os.listdir("/proc"):
+        if not d.isdigit():
+            continue
+        try:
+            with open("/proc/%s/stat" % d) as f:
+                st = f.read()
+            fields = st[st.rindex(")") + 2:].split()
+            if int(fields[2]) != pgid:      # pgrp
+                continue
+            total += int(fields[21]) * (os.sysconf("SC_PAGE_SIZE") // 1024)   # rss pages
+        except Exception:
+            continue
+    return total
+
+
+def _run_guarded(cmd, cwd, env, timeout):
+    """subprocess.run with a wall-clock limit and a resident-memory guard over the whole process group: a changed
+    implementation that loops without bound must end in an infrastructure failure, not take the machine down."""
+    import tempfile
+    import signal
+    with tempfile.TemporaryFile(mode="w+", errors="replace") as out:
+        p = subprocess.Popen(cmd, cwd=cwd, env=env, stdout=out, stderr=subprocess.STDOUT, start_new_session=True)
+        t0 = time.time()
+        rc = None
+        while True:
+            try:
+                p.wait(timeout=3)
+                rc = p.returncode
+                break
+            except subprocess.TimeoutExpired:
+                pass
+            if time.time() - t0 > timeout:
+                rc = -9001
+            elif _group_rss_kib(p.pid) > MEM_GUARD_GIB * 1024 * 1024:
+                rc = -9002
+            if rc is not None:
+                try:
+                    os.killpg(p.pid, signal.SIGKILL)
+                except Exception:
+                    pass
+                p.wait()
+                break
+        out.seek(0)
+        return _Done(rc, out.read())
+
+
 class Ctx:
     def __init__(self, prop, tier, seed, level="model_checking"):
         self.prop = prop
@@ -289,11 +345,12 @@ class Ctx:
             shutil.copy(os.path.join(REPO, "go.sum"), gosum)
         t = time.time()
         for attempt in range(5):
-            try:
-                p = subprocess.run(cmd, cwd=HARNESS, env=e, stdout=subprocess.PIPE, stderr=subprocess.STDOUT,
-                                   timeout=timeout + 120, text=True, errors="replace")
-            except subprocess.TimeoutExpired:
+            p = _run_guarded(cmd, HARNESS, e, timeout + 120)
+            if p.returncode == -9001:
                 raise Infra("go test timeout: %s" % " ".join(cmd))
+            if p.returncode == -9002:
+                raise Infra("go test exceeded the memory guard (%d GiB resident): %s\n%s" % (
+                    MEM_GUARD_GIB, " ".join(cmd), "\n".join(p.stdout.splitlines()[-20:])))
             # a crash inside the Go runtime's own timer code under synctest (seen once in ~100 runs with go1.26.8,
             # SIGSEGV in runtime.(*timer).maybeRunChan) is a toolchain fault, not a verdict: run again
             if p.returncode != 0 and "SIGSEGV: segmentation violation" in p.stdout and "runtime.(*timer)" in p.stdout:
